@@ -34,28 +34,90 @@ def simp(v):
 
 
 def ext(v, hi, lo, w=None):
-    """bits hi..lo"""
+    """bits hi..lo; structural fast paths for Concat / Extract / ZeroExt avoid calling the simplifier"""
     if is_c(v):
         return (v >> lo) & mask(hi - lo + 1)
-    if lo == 0 and hi == v.size() - 1:
-        return v
+    while True:
+        n = v.size()
+        if lo == 0 and hi == n - 1:
+            return v
+        k = v.decl().kind()
+        if k == z3.Z3_OP_CONCAT:
+            off = n
+            hit = None
+            for c in v.children():
+                cs = c.size()
+                off -= cs
+                if lo >= off and hi < off + cs:
+                    hit = (c, off)
+                    break
+            if hit is None:
+                # the slice spans several children: take the pieces structurally and re-join them
+                parts = []
+                off = n
+                for c in v.children():
+                    cs = c.size()
+                    off -= cs
+                    a_, b_ = max(lo, off), min(hi, off + cs - 1)
+                    if a_ <= b_:
+                        cv = c.as_long() if z3.is_bv_value(c) else c
+                        parts.append((ext(cv, b_ - off, a_ - off), b_ - a_ + 1))
+                return cat(parts)
+            v, hi, lo = hit[0], hi - hit[1], lo - hit[1]
+            if z3.is_bv_value(v):
+                return (v.as_long() >> lo) & mask(hi - lo + 1)
+            continue
+        if k == z3.Z3_OP_EXTRACT:
+            _, l0 = v.params()
+            v, hi, lo = v.arg(0), hi + l0, lo + l0
+            continue
+        if k == z3.Z3_OP_ZERO_EXT:
+            inner = v.arg(0)
+            if hi < inner.size():
+                v = inner
+                continue
+            if lo >= inner.size():
+                return 0
+        break
+    if z3.is_bv_value(v):
+        return (v.as_long() >> lo) & mask(hi - lo + 1)
     return simp(z3.Extract(hi, lo, v))
 
 
 def cat(parts):
-    """parts: list of (value, width) from most significant to least significant"""
+    """parts: list of (value, width) from most significant to least significant (no simplifier call: nested concats are
+    flattened, adjacent constants merged, adjacent extracts of the same term re-joined)"""
     if all(is_c(p) for p, _ in parts):
         r = 0
         for p, w in parts:
             r = (r << w) | (p & mask(w))
         return r
-    # merge adjacent concrete parts
-    terms = []
+    flat = []
     for p, w in parts:
-        terms.append(tz(p, w))
-    if len(terms) == 1:
-        return terms[0]
-    return simp(z3.Concat(*terms))
+        if not is_c(p) and p.decl().kind() == z3.Z3_OP_CONCAT:
+            for c in p.children():
+                flat.append((c.as_long() if z3.is_bv_value(c) else c, c.size()))
+        elif not is_c(p) and z3.is_bv_value(p):
+            flat.append((p.as_long(), w))
+        else:
+            flat.append((p, w))
+    merged = []
+    for p, w in flat:
+        if merged:
+            q, qw = merged[-1]
+            if is_c(p) and is_c(q):
+                merged[-1] = (((q & mask(qw)) << w) | (p & mask(w)), qw + w)
+                continue
+            if (not is_c(p)) and (not is_c(q)) and p.decl().kind() == z3.Z3_OP_EXTRACT and q.decl().kind() == z3.Z3_OP_EXTRACT and \
+                    p.arg(0).eq(q.arg(0)) and q.params()[1] == p.params()[0] + 1:
+                inner = p.arg(0)
+                hi_, lo_ = q.params()[0], p.params()[1]
+                merged[-1] = (inner if (lo_ == 0 and hi_ == inner.size() - 1) else z3.Extract(hi_, lo_, inner), qw + w)
+                continue
+        merged.append((p, w))
+    if len(merged) == 1:
+        return merged[0][0]
+    return z3.Concat(*[tz(p, w) for p, w in merged])
 
 
 def zext(v, wfrom, wto):
@@ -82,6 +144,8 @@ def bxor(a, b, w):
         return b
     if is_c(b) and b == 0:
         return a
+    if (not is_c(a)) and (not is_c(b)) and a.eq(b):
+        return 0
     return tz(a, w) ^ tz(b, w)
 
 
